@@ -17,7 +17,7 @@ RULE = ("Hypothesis draws dyadic data (n 4..40, d 1..3), a binner in {DecisionTr
         "LinearRegression, DummyRegressor | LogisticRegression, small tree}, optional positive weights, n_jobs in {None,1,2,4}, integer "
         "class labels (negative / non-contiguous, 2..4 classes, buckets missing a class occur), and a query batch that contains "
         "training rows, far rows and rows in discretizer cells unseen at training time; the training table is an array or a DataFrame, the query an array "
-        "(float64, float32, int64) or a DataFrame. Oracles: (partition) bucket ids vs the fitted "
+        "(float64, float32, int64) or a DataFrame, targets and weights arrays or pandas Series with a permuted integer index. Oracles: (partition) bucket ids vs the fitted "
         "binner's public apply()/transform(); (training-sets) recording local models saw exactly their bucket's (x,y,w) multiset, "
         "plus exactly one borrowed training row per missing class for the classifier, fallback saw everything; (dispatch) every output "
         "row equals its bucket model's (or the fallback's) own output on that row; (n_jobs) outputs equal those of n_jobs=None; "
@@ -125,7 +125,16 @@ def check(case):
     Xin = pandas.DataFrame(X, columns=cols) if case.get("xkind") == "frame" else X
     Qin = pandas.DataFrame(Q, columns=cols) if case.get("qkind") == "frame" else Q
     facts.update(xkind=case.get("xkind", "array"), qkind=case.get("qkind", "float64"))
-    r = m.fit(Xin, y, sample_weight=w)
+    yin, win = y, w
+    if case.get("ykind") == "series":
+        # targets and weights as pandas Series whose index is not 0..n-1 in order (a frame that was shuffled and not re-indexed):
+        # rows are still matched by position, as for any scikit-learn estimator
+        idx = np.array(case["index_perm"][:n]) if len(case.get("index_perm", [])) >= n else np.arange(n)[::-1]
+        idx = np.argsort(np.argsort(idx[:n], kind="stable"), kind="stable")          # a permutation of 0..n-1
+        yin = pandas.Series(y, index=idx)
+        win = None if w is None else pandas.Series(w, index=idx)
+    facts["ykind"] = case.get("ykind", "array")
+    r = m.fit(Xin, yin, sample_weight=win)
     require(r is m, "fit:not-self", "", facts)
     require(np.array_equal(X, X0) and np.array_equal(y, y0) and (w is None or np.array_equal(w, w0)), "input-modified", "", facts)
 
@@ -220,7 +229,7 @@ def check(case):
     if case["n_jobs"] not in (None, 1):
         np.random.seed(case["seed"])
         m1 = _new_model(case, None)
-        m1.fit(Xin, y, sample_weight=w)
+        m1.fit(Xin, yin, sample_weight=win)
         for meth in _methods(case, m):
             a, b = np.asarray(getattr(m, meth)(Qin)), np.asarray(getattr(m1, meth)(Qin))
             require(a.shape == b.shape and np.array_equal(a, b), "n_jobs:" + meth,
@@ -229,7 +238,7 @@ def check(case):
     labels = ["clf" if classifier else "reg", "binner=" + case["binner"]["kind"], "est=" + case["estimator"]["kind"],
               "buckets=1" if nb == 1 else ("buckets<=4" if nb <= 4 else "buckets>4"), "unseen-bucket" if unseen else "all-seen",
               "weights" if w is not None else "no-weights", "n_jobs=%s" % case["n_jobs"], "missing-class" if missing_class else "no-missing-class",
-              "train:" + facts["xkind"], "query:" + facts["qkind"]]
+              "train:" + facts["xkind"], "query:" + facts["qkind"], "y:" + facts["ykind"]]
     return Outcome(labels, nb >= 2 and (unseen or missing_class or w is not None or case["n_jobs"] not in (None, 1)))
 
 
@@ -265,7 +274,8 @@ def _cases(draw, tier="quick"):
                 w=draw(st.one_of(st.none(), st.lists(st.integers(1, 16).map(lambda v: v / 4.0), min_size=50, max_size=50))),
                 binner=binner, estimator=est, n_jobs=draw(st.sampled_from([None, 1, 2, 2, 4])), random_state=draw(st.one_of(st.none(), st.integers(0, 99))),
                 seed=draw(st.integers(0, 2**31 - 2)), Q=Q, xkind=draw(st.sampled_from(["array", "array", "frame"])),
-                qkind=draw(st.sampled_from(["float64", "float64", "float32", "int64", "frame"])))
+                qkind=draw(st.sampled_from(["float64", "float64", "float32", "int64", "frame"])),
+                ykind=draw(st.sampled_from(["array", "array", "series"])), index_perm=draw(st.lists(st.integers(0, 10**6), min_size=50, max_size=50)))
 
 
 CLAUSES = [
